@@ -1180,6 +1180,43 @@ def inj_schema_reject(rng, scn, levels=("root", "pkg", "iface", "entry")):
     scn["tags"].append("level:" + lv)
 
 
+WRONG_TYPED = [42, None, ["header.txt"], {"a": 1}, True, 1.5]
+
+
+def inj_schema_wrong_type(rng, scn, level, tmpl="testify"):
+    """the file-level STRING keys of the built-in schemas (boilerplate-file, mock-build-tags) given as a
+    number, null, a list, a map, a boolean - both keys at once, with two different wrong types - at one
+    level; at interface / configs-entry level on the FIRST selected interface of a package (its
+    template-data is the file-level template-data)"""
+    vals = rng.sample(WRONG_TYPED, 2)
+    data = {"boilerplate-file": vals[0], "mock-build-tags": vals[1]}
+    if tmpl == "matryer":
+        path, ifs = shared_file(rng, scn, "a")
+        for sc in [scn] + ([scn["base_ref"]] if scn.get("base_ref") is not None else []):
+            sc["packages"][path]["config"]["template"] = "matryer"
+        scn["packages"][path]["config"]["template-data"] = data
+    elif level == "root":
+        scn["root"]["template-data"] = data
+    else:
+        sel = selecting(scn)
+        path = rng.choice(sorted(sel))
+        ent = ensure_cfg(scn, path)
+        if level == "pkg":
+            ent["config"]["template-data"] = data
+        else:
+            i = sel[path][0]
+            ent.setdefault("interfaces", {})
+            ie = ent["interfaces"].get(i) or {}
+            ent["interfaces"][i] = ie
+            if level == "iface" and not ie.get("configs"):
+                ie.setdefault("config", {})["template-data"] = data
+            else:
+                if not ie.get("configs"):
+                    ie["configs"] = [{}]
+                (ie["configs"][0] if ie["configs"][0] is not None else ie["configs"].__setitem__(0, {}) or ie["configs"][0])["template-data"] = data
+    scn["tags"] += ["SchemaReject", "level:wrong-type-%s-%s" % (tmpl, level)]
+
+
 def inj_schema_reject_later(rng, scn):
     """the violation sits only on a mock that is NOT the first of its file; nothing at root or
     package level (the file-level template-data is then empty)"""
@@ -1724,6 +1761,11 @@ INJECTIONS = {
     "SchemaRejectRoot": at(inj_schema_reject, "root"), "SchemaRejectPkg": at(inj_schema_reject, "pkg"),
     "SchemaRejectIface": at(inj_schema_reject, "iface"), "SchemaRejectEntry": at(inj_schema_reject, "entry"),
     "SchemaRejectLater": inj_schema_reject_later, "SchemaRequired": inj_schema_required,
+    "SchemaWrongTypeRoot": lambda rng, scn: inj_schema_wrong_type(rng, scn, "root"),
+    "SchemaWrongTypePkg": lambda rng, scn: inj_schema_wrong_type(rng, scn, "pkg"),
+    "SchemaWrongTypeIface": lambda rng, scn: inj_schema_wrong_type(rng, scn, "iface"),
+    "SchemaWrongTypeEntry": lambda rng, scn: inj_schema_wrong_type(rng, scn, "entry"),
+    "SchemaWrongTypeMatryer": lambda rng, scn: inj_schema_wrong_type(rng, scn, "pkg", "matryer"),
     "ConflictPackage": inj_conflict_pkg, "ConflictPkgName": inj_conflict_pkgname, "ConflictTemplate": inj_conflict_template,
     "ConfigUnreadable": inj_config_unreadable, "NoPackages": inj_no_packages, "MissingRemoteTemplate": inj_missing_remote, "MissingRemoteTemplateRootPkg": at(inj_missing_remote, "root", "pkg"),
     "SchemaMissing": inj_schema_missing, "TemplateSyntax": inj_template_syntax,
